@@ -26,6 +26,14 @@ PROBES = {
     # Heading.level/content/closing_sequence
     'headings': '# h1\n## h2 ##\n###### h6\n#\n####### seven\n',
     'heading_after': 'text\n### three\n',
+    # minimal forms that leave a scratch attribute at its "nothing captured" value, first thing in the document
+    'heading_bare': '#\n\nbody\n',
+    'heading_bare_indented': '  ##\nbody\n',
+    'heading_closed': '## closed ##\n',
+    'heading_closed_long': '### a ########   \n',
+    'heading_only_hashes': '# #\n## ##\n',
+    'fence_plain': '```\ncode\n```\n',
+    'fence_indented_info': '   ```` ruby startline=3\n   x\n  y\n   ````\n',
     # CodeFence._open_info
     'fence_py': '```py\nx = 1\n```\n',
     'fence_tilde': '  ~~~ info string\n   code\n  ~~~\n',
